@@ -7,7 +7,7 @@ namespace EupsModel.Setup
 def Empty : Prod → Prop := fun _ => False
 
 def NameDag (db : Db) (rank : Name → Nat) : Prop :=
-  ∀ d ∈ db.decls, ∀ g n o j v x t, (g, Act.dep n o j v x t) ∈ d.table → rank n < rank d.name
+  ∀ d ∈ db.decls, ∀ g n o j v x t kl, (g, Act.dep n o j v x t kl) ∈ d.table → rank n < rank d.name
 
 def Res.st? : Res → Option St
   | .ok s | .notFound s | .raised s => some s
@@ -94,7 +94,7 @@ theorem apply_true_spec (cfg : Cfg) (p : Prod) (a : Act) (s : St) (ha : a ∈ ta
       · exact ha
       · exact hw.vars var2 p' rel' h
   | alias key val => exact ⟨hn, hw⟩
-  | dep n o j v x t => exact ⟨hn, hw⟩
+  | dep n o j v x t kl => exact ⟨hn, hw⟩
 
 /-! ### the table interpreter, generic in the recursive call -/
 
@@ -106,8 +106,8 @@ theorem acts_already (cfg : Cfg) (rec : Rec) (hal : AlOK cfg rec) (fwd : Bool) (
   | nil => intro s s' ha h; simp [acts, Res.st?] at h; subst h; exact ha
   | cons a rest ih =>
     intro s s' ha h
-    by_cases hdep : ∃ n o j v x t, a = .dep n o j v x t
-    · obtain ⟨n, o, j, v, x, t, rfl⟩ := hdep
+    by_cases hdep : ∃ n o j v x t kl, a = .dep n o j v x t kl
+    · obtain ⟨n, o, j, v, x, t, kl, rfl⟩ := hdep
       simp only [acts] at h
       split at h
       · exact ih s s' ha h
@@ -125,24 +125,24 @@ theorem acts_already (cfg : Cfg) (rec : Rec) (hal : AlOK cfg rec) (fwd : Bool) (
           split at h
           · simp [Res.st?] at h; subst h; exact h1
           · exact ih ⟨s.env, s.aliases, s.unaliased, s1.already⟩ s' h1 h
-    · have hnd : ∀ n o j v x t, a ≠ .dep n o j v x t := fun n o j v x t e => hdep ⟨n, o, j, v, x, t, e⟩
+    · have hnd : ∀ n o j v x t kl, a ≠ .dep n o j v x t kl := fun n o j v x t kl e => hdep ⟨n, o, j, v, x, t, kl, e⟩
       rw [acts_cons_nondep rec cfg fwd depth noRec vro d a rest s hnd] at h
       exact ih _ s' (by simpa using ha) h
 
 theorem acts_frame (cfg : Cfg) (rank : Name → Nat) (rec : Rec) (hrec : RecOK cfg rank rec) (fwd : Bool) (depth : Nat)
     (noRec : Bool) (vro : List VroEnt) (d : Decl) (r : Nat) (l : List Act)
-    (hl : ∀ n o j v x t, Act.dep n o j v x t ∈ l → rank n < r) :
+    (hl : ∀ n o j v x t kl, Act.dep n o j v x t kl ∈ l → rank n < r) :
     ∀ s s', AlreadyOK cfg.db s.already → acts rec cfg fwd depth noRec vro d l s = .ok s' →
       ∀ m, r ≤ rank m → s'.env.rec? m = s.env.rec? m := by
   induction l with
   | nil => intro s s' _ h m _; simp [acts] at h; subst h; rfl
   | cons a rest ih =>
-    have hl' : ∀ n o j v x t, Act.dep n o j v x t ∈ rest → rank n < r :=
-      fun n o j v x t hm => hl n o j v x t (List.mem_cons_of_mem _ hm)
+    have hl' : ∀ n o j v x t kl, Act.dep n o j v x t kl ∈ rest → rank n < r :=
+      fun n o j v x t kl hm => hl n o j v x t kl (List.mem_cons_of_mem _ hm)
     intro s s' ha h m hm
-    by_cases hdep : ∃ n o j v x t, a = .dep n o j v x t
-    · obtain ⟨n, o, j, v, x, t, rfl⟩ := hdep
-      have hn : rank n < r := hl n o j v x t (by simp)
+    by_cases hdep : ∃ n o j v x t kl, a = .dep n o j v x t kl
+    · obtain ⟨n, o, j, v, x, t, kl, rfl⟩ := hdep
+      have hn : rank n < r := hl n o j v x t kl (by simp)
       simp only [acts] at h
       split at h
       · exact ih hl' s s' ha h m hm
@@ -161,7 +161,7 @@ theorem acts_frame (cfg : Cfg) (rank : Name → Nat) (rec : Rec) (hrec : RecOK c
           split at h
           · cases h
           · exact ih hl' ⟨s.env, s.aliases, s.unaliased, s1.already⟩ s' h1 h m hm
-    · have hnd : ∀ n o j v x t, a ≠ .dep n o j v x t := fun n o j v x t e => hdep ⟨n, o, j, v, x, t, e⟩
+    · have hnd : ∀ n o j v x t kl, a ≠ .dep n o j v x t kl := fun n o j v x t kl e => hdep ⟨n, o, j, v, x, t, kl, e⟩
       rw [acts_cons_nondep rec cfg fwd depth noRec vro d a rest s hnd] at h
       rw [ih hl' _ s' (by simpa using ha) h m hm, apply_rec?]
 
@@ -173,8 +173,8 @@ theorem acts_false_ne_fail (rec : Rec) (cfg : Cfg) (depth : Nat) (noRec : Bool) 
   | nil => intro s s'; simp [acts]
   | cons a rest ih =>
     intro s s'
-    by_cases hdep : ∃ n o j v x t, a = .dep n o j v x t
-    · obtain ⟨n, o, j, v, x, t, rfl⟩ := hdep
+    by_cases hdep : ∃ n o j v x t kl, a = .dep n o j v x t kl
+    · obtain ⟨n, o, j, v, x, t, kl, rfl⟩ := hdep
       simp only [acts]
       split
       · exact ih s s'
@@ -183,13 +183,13 @@ theorem acts_false_ne_fail (rec : Rec) (cfg : Cfg) (depth : Nat) (noRec : Bool) 
         · simp
         · simp only [Bool.false_and, Bool.false_eq_true, if_false]; exact ih _ s'
         · simp only [Bool.false_and, Bool.false_eq_true, if_false]; exact ih _ s'
-    · have hnd : ∀ n o j v x t, a ≠ .dep n o j v x t := fun n o j v x t e => hdep ⟨n, o, j, v, x, t, e⟩
+    · have hnd : ∀ n o j v x t kl, a ≠ .dep n o j v x t kl := fun n o j v x t kl e => hdep ⟨n, o, j, v, x, t, kl, e⟩
       rw [acts_cons_nondep rec cfg false depth noRec vro d a rest s hnd]
       exact ih _ s'
 
 theorem acts_true_spec (cfg : Cfg) (rank : Name → Nat) (rec : Rec) (hrec : RecOK cfg rank rec) (depth : Nat)
     (noRec : Bool) (vro : List VroEnt) (d : Decl) (l : List Act)
-    (hl : ∀ n o j v x t, Act.dep n o j v x t ∈ l → rank n < rank d.name)
+    (hl : ∀ n o j v x t kl, Act.dep n o j v x t kl ∈ l → rank n < rank d.name)
     (hc : ∀ a ∈ l, a ∈ tableOf cfg d.prod) :
     ∀ s s', AlreadyOK cfg.db s.already → WellOwned cfg s.env → NoResidue Empty s.env →
       s.env.rec? d.name = some d.ver → acts rec cfg true depth noRec vro d l s = .ok s' →
@@ -197,13 +197,13 @@ theorem acts_true_spec (cfg : Cfg) (rank : Name → Nat) (rec : Rec) (hrec : Rec
   induction l with
   | nil => intro s s' _ hw hn _ h; simp [acts] at h; subst h; exact ⟨hn, hw⟩
   | cons a rest ih =>
-    have hl' : ∀ n o j v x t, Act.dep n o j v x t ∈ rest → rank n < rank d.name :=
-      fun n o j v x t hm => hl n o j v x t (List.mem_cons_of_mem _ hm)
+    have hl' : ∀ n o j v x t kl, Act.dep n o j v x t kl ∈ rest → rank n < rank d.name :=
+      fun n o j v x t kl hm => hl n o j v x t kl (List.mem_cons_of_mem _ hm)
     have hc' : ∀ a ∈ rest, a ∈ tableOf cfg d.prod := fun a hm => hc a (List.mem_cons_of_mem _ hm)
     intro s s' ha hw hn hr h
-    by_cases hdep : ∃ n o j v x t, a = .dep n o j v x t
-    · obtain ⟨n, o, j, v, x, t, rfl⟩ := hdep
-      have hnr : rank n < rank d.name := hl n o j v x t (by simp)
+    by_cases hdep : ∃ n o j v x t kl, a = .dep n o j v x t kl
+    · obtain ⟨n, o, j, v, x, t, kl, rfl⟩ := hdep
+      have hnr : rank n < rank d.name := hl n o j v x t kl (by simp)
       simp only [acts] at h
       split at h
       · exact ih hl' hc' s s' ha hw hn hr h
@@ -224,7 +224,7 @@ theorem acts_true_spec (cfg : Cfg) (rank : Name → Nat) (rec : Rec) (hrec : Rec
           split at h
           · cases h
           · exact ih hl' hc' ⟨s.env, s.aliases, s.unaliased, s1.already⟩ s' h1 hw hn hr h
-    · have hnd : ∀ n o j v x t, a ≠ .dep n o j v x t := fun n o j v x t e => hdep ⟨n, o, j, v, x, t, e⟩
+    · have hnd : ∀ n o j v x t kl, a ≠ .dep n o j v x t kl := fun n o j v x t kl e => hdep ⟨n, o, j, v, x, t, kl, e⟩
       rw [acts_cons_nondep rec cfg true depth noRec vro d a rest s hnd] at h
       obtain ⟨hn1, hw1⟩ := apply_true_spec cfg d.prod a s (hc a (by simp)) hr hw hn
       exact ih hl' hc' _ s' (by simpa using ha) hw1 hn1 (by rw [apply_rec?]; exact hr) h
